@@ -411,7 +411,7 @@ def main_check(pid, tier):
     prop = PROPS[pid]
     if "custom" in prop:
         return prop["custom"](pid, tier, sys.modules[__name__])
-    outdir = os.path.join(BUILD, "out")
+    outdir = os.path.join(BUILD, "out" + os.environ.get("VERIF_RUN_TAG", ""))     # VERIF_RUN_TAG: a second run of the same property at the same time (another seed) keeps its own result files
     os.makedirs(outdir, exist_ok=True)
     cfgs = select_configs(prop, tier)
     known = load_known(pid)
@@ -596,8 +596,8 @@ def aggregate(pid, prop, tier, cfgs, results, known, nreg, t0, extra_cov=None):
 
 
 def write_evidence(pid, tier, cov, prop, wall, nviol):
-    if os.environ.get("VERIF_CONFIGS"):
-        return      # a debugging run restricted to some configurations does not describe the check: keep the evidence of the last full run
+    if os.environ.get("VERIF_CONFIGS") or os.environ.get("VERIF_RUN_TAG"):
+        return      # a debugging run restricted to some configurations / a tagged side run does not describe the check: keep the evidence of the last full run
     os.makedirs(os.path.join(HERE, "evidence"), exist_ok=True)
     cov["evaluations"] = int(cov["evaluations"]); cov["distinct_nontrivial"] = int(cov["distinct_nontrivial"])
     evd = {"property_id": pid, "tier": tier, "seed": SEED, "level": "exploration", "coverage": cov,
